@@ -1243,7 +1243,16 @@ func (r *RIBHolder) GetNextHopGroup(id uint64) (*aft.Afts_NextHopGroup, bool) {
 
 // candidateRIB takes the input set of Afts and returns them as a aft.RIB pointer
 // that can be merged into an existing RIB.
-func candidateRIB(a *aftpb.Afts) (*aft.RIB, error) {
+func candidateRIB(a *aftpb.Afts) (cr *aft.RIB, rerr error) {
+	// The libraries used for the conversion panic for some malformed input (e.g.,
+	// an enumerated value that is not defined in the schema). An invalid entry
+	// must be rejected rather than terminate the server.
+	defer func() {
+		if r := recover(); r != nil {
+			cr, rerr = nil, fmt.Errorf("invalid entry, cannot be converted to a RIB entry, %v", r)
+		}
+	}()
+
 	paths, err := protomap.PathsFromProto(a)
 	if err != nil {
 		return nil, err
